@@ -121,6 +121,19 @@ public:
 		mLast = &ref;
 	}
 
+	/// <summary>
+	/// Makes a string key independent of the reader: the view delivered by a reader is only valid until its next read
+	/// (the stream reader returns a view of its own buffer), but the key of a scope must outlive the reads of its child scopes.
+	/// </summary>
+	void PinStringKey(std::string& storage)
+	{
+		if (auto& ref = std::get<std::string_view>(mTuple); mLast == &ref)
+		{
+			storage.assign(ref.data(), ref.size());
+			ref = storage;
+		}
+	}
+
 	template <typename T>
 	T& GetValueRef() noexcept
 	{
@@ -810,6 +823,7 @@ public:
 		if (FindValueByKey(key))
 		{
 			if (size_t sz = 0; mMsgPackReader->ReadArraySize(sz)) {
+				mCurrentKey.PinStringKey(mKeyStorage);
 				return std::make_optional<CMsgPackReadArrayScope<TReader>>(sz, mMsgPackReader, GetContext(), this);
 			}
 			OnFinishChildScope();
@@ -823,6 +837,7 @@ public:
 		if (FindValueByKey(key))
 		{
 			if (size_t sz = 0; mMsgPackReader->ReadMapSize(sz)) {
+				mCurrentKey.PinStringKey(mKeyStorage);
 				return std::make_optional<CMsgPackReadObjectScope<TReader>>(sz, mMsgPackReader, GetContext(), this);
 			}
 			OnFinishChildScope();
@@ -840,6 +855,7 @@ public:
 				return std::nullopt;
 			}
 			if (size_t sz = 0; mMsgPackReader->ReadBinarySize(sz)) {
+				mCurrentKey.PinStringKey(mKeyStorage);
 				return std::make_optional<CMsgPackReadBinaryScope<TReader>>(sz, mMsgPackReader, GetContext(), this);
 			}
 			OnFinishChildScope();
@@ -938,6 +954,7 @@ private:
 	const size_t mSize;
 	size_t mIndex = 0;
 	MsgPackVariableKey mCurrentKey;
+	std::string mKeyStorage;
 };
 
 
